@@ -124,7 +124,17 @@ section proj
 variable {S : Sig} {E : Exec S}
 
 theorem singleKey_keyed (c : Cmd S) (h : SingleKey c = true) : Keyed c = true ∧ keyList c = [cmdKey c] := by
-  cases c <;> simp [SingleKey] at h <;> exact ⟨rfl, rfl⟩
+  cases c with
+  | single _ _ => exact ⟨rfl, rfl⟩
+  | fastGet _ => exact ⟨rfl, rfl⟩
+  | fastSet _ _ => exact ⟨rfl, rfl⟩
+  | batchGet ks =>
+    match ks, h with
+    | [_], _ => exact ⟨rfl, rfl⟩
+  | batchSet kvs =>
+    match kvs, h with
+    | [_], _ => exact ⟨rfl, rfl⟩
+  | _ => simp [SingleKey] at h
 
 /-- what relates the replay of the whole log to the replay of key `k`'s part -/
 structure PRel (km : NMap Nat) (k : Nat) (r rk : RState (Store S.Val) (Cmd S) Reply) : Prop where
